@@ -207,6 +207,39 @@ func (p *C09) Gen(seed uint64, i int, tier string) *scen.Scenario {
 			tk++
 			sc.Tail = append(sc.Tail, scen.Op{Op: "write_thru", L: scen.Pick(r, []int{probe.L, r.Range(1, nL)}), Kind: "pc", Lvl: scen.Pick(r, sevs), Msg: "n" + tok(tk), Tok: tok(tk), T: c09Near(r, probe.T)})
 		}
+		if r.Chance(1, 4) {
+			// an excursion: process-wide flags (or a path mapping that hits the calling file) are changed, records
+			// are printed - also from the probe's own call site -, and the change is undone before the probe: the
+			// probe is issued under the configuration of the pristine one again
+			var open, close scen.Op
+			if r.Chance(1, 4) {
+				open = scen.Op{Op: "add_path", Name: "$SRCDIR/interp.go", Msg: scen.Pick(r, []string{"~probe", "elsewhere/x.go"})}
+				close = scen.Op{Op: "remove_path", Name: "$SRCDIR/interp.go"}
+			} else {
+				var mods []string
+				for _, f := range []string{"Lprivacypath", "Lprivacypathregexp", "Lcallerpackagename", "LlocalTime", "Ldate", "Lmicroseconds", "Lcaller", "Llineno", "LattrsR", "Lattrs"} {
+					switch r.Intn(5) {
+					case 0:
+						mods = append(mods, f)
+					case 1:
+						mods = append(mods, "-"+f)
+					}
+				}
+				open = scen.Op{Op: "save_flags", S: mods}
+				close = scen.Op{Op: "restore_flags"}
+			}
+			sc.Tail = append(sc.Tail, open)
+			for n := r.Range(1, 3); n > 0; n-- {
+				tk++
+				sev := scen.Pick(r, sevs)
+				if r.Bool() {
+					sc.Tail = append(sc.Tail, scen.Op{Op: "write_thru", L: scen.Pick(r, []int{probe.L, r.Range(1, nL)}), Kind: "pc", Lvl: sev, Msg: "x" + tok(tk), Tok: tok(tk), T: c09Near(r, probe.T), Args: vals(r.Intn(3))})
+				} else {
+					sc.Tail = append(sc.Tail, scen.Op{Op: "log", L: r.Range(1, nL), Entry: "LogAttrs", Lvl: sev, Msg: "x" + tok(tk), Tok: tok(tk), Args: vals(r.Intn(3))})
+				}
+			}
+			sc.Tail = append(sc.Tail, close)
+		}
 		sc.Tail = append(sc.Tail, probe)
 		if r.Bool() && nL > 0 {
 			tk++
@@ -526,13 +559,33 @@ func (p *C09) WellFormed(sc *scen.Scenario) bool {
 			}
 		}
 	}
-	// no configuration change after the pristine probe
-	for _, l := range [][]scen.Op{sc.Tail} {
-		for i := range l {
-			if l[i].Op != "log" && l[i].Op != "write_thru" {
+	// no configuration change after the pristine probe that is not undone before the next probe
+	open := ""
+	for i := range sc.Tail {
+		o := &sc.Tail[i]
+		switch {
+		case o.Op == "log" || (o.Op == "write_thru" && !o.Probe):
+		case o.Probe:
+			if open != "" {
 				return false
 			}
+		case o.Op == "save_flags" && open == "":
+			for _, f := range o.S {
+				if strings.TrimPrefix(f, "-") == "LnoInterrupt" || strings.TrimPrefix(f, "-") == "Linterruptalways" {
+					return false
+				}
+			}
+			open = "restore_flags"
+		case o.Op == "add_path" && open == "" && o.Name == "$SRCDIR/interp.go":
+			open = "remove_path"
+		case open != "" && o.Op == open && (o.Op != "remove_path" || o.Name == "$SRCDIR/interp.go"):
+			open = ""
+		default:
+			return false
 		}
+	}
+	if open != "" {
+		return false
 	}
 	for _, t := range sc.Tasks {
 		for i := range t.Ops {
